@@ -8,7 +8,7 @@ from ..harness import Outcome
 from .base import Prop, run_export, failure_class, failure_detail, Flows, stream_mismatch_class, describe_conn, \
     apply_segmentation
 
-NET = {"delay": 40, "early": 30, "lost_before": 15, "dup": 30, "dup_rto": 20, "dup_late": 10, "_D": 4}
+NET = {"delay": 40, "early": 30, "lost_before": 15, "dup": 30, "dup_rto": 20, "dup_late": 10, "dup_merge": 25, "dup_half": 20, "_D": 4}
 
 
 def first_displaced(conn, ex):
@@ -33,7 +33,8 @@ class C05(Prop):
             "distinct = distinct (stream digest, delivery plan digest)")
     reach = ["dup_first_segment_of_record", "dup_after_later_data", "reorder_across_record_boundary", "seq_wrap_in_record",
              "seq_wrap_in_conn", "header_split", "one_byte_segments", "record_spans_3_segments", "dup_late", "sweep",
-             "with_checksum_option"]
+             "with_checksum_option", "retransmission_with_other_boundaries",
+             "bulk_direction_over_64k"]
     exhaustive_note = "all 2^10 (quick) / 2^12 (thorough) cut sets of a 2-record client stream of 11 / 13 bytes at the record-handler level"
 
     def sweep_bits(self, tier):
@@ -65,6 +66,19 @@ class C05(Prop):
         cfg = {"records_max": 8, "len_max": 3000 if R.chance(80) else 16384, "isn_wrap": False}
         used = set()
         conn = gen.gen_tls_conn(R.fork("conn"), 0, cfg, used)
+        if idx % 20 == 7:
+            # bulk transfer: one direction carries 60-130 KiB in records of 12-16 KiB, so that more than 64 KiB can be
+            # in flight / buffered (window scaling) before a hole is filled or a segment ends on a record boundary
+            B = R.fork("bulk")
+            d = B.choice("cs")
+            big = [{"k": 0, "d": d, "n": B.range(12000, 16384)} for _ in range(B.range(5, 8))]
+            at = B.range(1, len(conn["recs"])) if conn["recs"] else 0
+            conn["recs"] = conn["recs"][:at] + big + conn["recs"][at:]
+            for i, r in enumerate(conn["recs"]):
+                r["k"] = i
+            # the bulk records leave in one flight (no pause in which the receiver could have framed everything so far)
+            conn["fl"] = [1] * at + [len(big)] + [1] * (len(conn["recs"]) - at - len(big))
+            conn["bulk"] = True
         conn["tcp"]["ctl"] = R.chance(50)
         plans = []
         K = 6 if tier == "quick" else 12
@@ -138,33 +152,40 @@ class C05(Prop):
                 if not fr or fr[0]["lo"] == 0:
                     continue
                 # bytes seen before the segment starting at offset 0, as one contiguous run starting at the first seen
-                early = []
+                arrived = []
                 for f in fr:
                     if f["lo"] == 0:
                         break
-                    early.append((f["lo"], f["hi"]))
-                early.sort()
-                lo, hi = early[0]
-                for a, b in early[1:]:
-                    if a == hi:
-                        hi = b
-                buf = t["streams"]["c"][lo:hi]
-                pos = 0
-                while len(buf) - pos >= 5:
-                    pos += 5 + int.from_bytes(buf[pos + 3:pos + 5], "big")
-                    if pos == len(buf):
+                    arrived.append((f["lo"], f["hi"]))
+                # the session frames what it has after every arrival: judge every arrival prefix
+                for k in range(1, len(arrived) + 1):
+                    if self.frames_as_records(t["streams"]["c"], sorted(arrived[:k])):
                         return True
-                # any prefix of the early run that frames exactly is enough for the session to consume it
-                for cut in range(5, len(buf) + 1):
-                    pos = 0
-                    while cut - pos >= 5:
-                        pos += 5 + int.from_bytes(buf[pos + 3:pos + 5], "big")
-                        if pos == cut and any(h == lo + cut for _, h in early):
-                            return True
-                        if pos > cut:
-                            break
             return False
         return {"client-tail-frames-as-records": tail_frames}
+
+    @staticmethod
+    def frames_as_records(stream, early):
+        lo, hi = early[0]
+        for a, b in early[1:]:
+            if a == hi:
+                hi = b
+        buf = stream[lo:hi]
+        pos = 0
+        while len(buf) - pos >= 5:
+            pos += 5 + int.from_bytes(buf[pos + 3:pos + 5], "big")
+            if pos == len(buf):
+                return True
+        # any prefix of the early run that frames exactly is enough for the session to consume it
+        for cut in range(5, len(buf) + 1):
+            pos = 0
+            while cut - pos >= 5:
+                pos += 5 + int.from_bytes(buf[pos + 3:pos + 5], "big")
+                if pos == cut and any(h == lo + cut for _, h in early):
+                    return True
+                if pos > cut:
+                    break
+        return False
 
     def focus_spec(self, spec, viol):
         if viol.focus is not None and spec.get("plans") and viol.focus < len(spec["plans"]):
@@ -239,8 +260,10 @@ class C05(Prop):
             isn = tcp.get("isn_" + d, 1000 if d == "c" else 5000)
             first = {}
             for f in t["frames"]:
-                if f["d"] == d and f["kept"] and (f["lo"], f["hi"]) not in first:
-                    first[(f["lo"], f["hi"])] = f
+                # a later segment with a first sequence number seen before is a retransmission (also when it was cut
+                # differently): the copy seen first stands for it
+                if f["d"] == d and f["kept"] and f["lo"] not in first:
+                    first[f["lo"]] = f
             for r, (_, md) in zip(want, got):
                 exp = sorted((f["lo"], f["hi"]) for f in first.values() if f["lo"] < r["hi"] and f["hi"] > r["lo"])
                 exp_md = [((isn + 1 + lo) & 0xFFFFFFFF, hi - lo) for lo, hi in exp]
@@ -326,8 +349,12 @@ class C05(Prop):
         tcp = spec["conns"][0]["tcp"]
         fr = t["frames"]
         out.add("seg_policy", plan.get("seg_policy"))
+        if spec["conns"][0].get("bulk"):
+            out.count("reach:bulk_direction_over_64k")
         if spec.get("cli", {}).get("c"):
             out.count("reach:with_checksum_option")
+        if any(a[1] in ("dup_merge", "dup_half") for d in "cs" for a in (plan.get("acts") or {}).get(d, [])):
+            out.count("reach:retransmission_with_other_boundaries")
         for d in "cs":
             fd = [f for f in fr if f["d"] == d]
             isn = tcp.get("isn_" + d, 0)
